@@ -205,8 +205,58 @@ fn judge_text(ctx: &mut Ctx, kind: &str, s: &str, via_json: bool) {
     }
 }
 
+/// Different records of ONE signer at ONE sequence number rendered one after the other through every text
+/// producer: each gets its own canonical text.
+fn c12_same_identity_texts<KK: KeyKind>(ctx: &mut Ctx, scheme: Scheme) {
+    let key = KK::make(scheme, &secret_from(scheme, OWN));
+    let recs: Vec<Enr<KK::K>> = [
+        vec![BEntry::Udp4(1)],
+        vec![BEntry::Udp4(2)],
+        vec![BEntry::Udp4(1), BEntry::Add(b"x".to_vec(), Val::U8(1))],
+        vec![BEntry::Seq(9), BEntry::Tcp4(1)],
+        vec![BEntry::Seq(9), BEntry::Tcp4(2)],
+    ]
+    .iter()
+    .filter_map(|p| guard(|| apply_build::<KK::K>(p, &key).ok()).ok().flatten())
+    .collect();
+    for round in 0..3 {
+        for (i, e) in recs.iter().enumerate() {
+            let r = guard(|| {
+                let want = format!("enr:{}", b64::encode(&alloy_rlp::encode(e)));
+                let forms = [
+                    ("Display", format!("{e}")),
+                    ("to_string", e.to_string()),
+                    ("to_base64", e.to_base64()),
+                    ("json", serde_json::to_string(e).map(|s| s.trim_matches('"').to_string()).unwrap_or_default()),
+                    ("json-value", serde_json::to_value(e).ok().and_then(|v| v.as_str().map(|s| s.to_string())).unwrap_or_default()),
+                ];
+                forms.into_iter().filter(|(_, t)| *t != want).map(|(n, t)| (n, t)).collect::<Vec<_>>()
+            });
+            ctx.count("evaluations");
+            ctx.count("text.same-identity-renderings");
+            let replay = || json!({"kind": "note", "what": "same-identity-texts", "kt": KK::name(), "record": i, "round": round});
+            match r {
+                Ok(bad) => {
+                    for (form, t) in bad {
+                        ctx.violate("C12", "text-form-not-canonical", &format!("{form}/same-signer-same-seq/{}", KK::name()), || format!("{form} of record {i} (round {round}) = {t}"), replay);
+                    }
+                }
+                Err(p) => ctx.violate("C03", "panic", &format!("text/{}", panic_sig(&p)), || p.clone(), replay),
+            }
+        }
+    }
+}
+
 pub fn c12(ctx: &mut Ctx) {
     let q = ctx.quick();
+    if !cfg!(miri) && ctx.mine(5) {
+        c12_same_identity_texts::<K256K>(ctx, Scheme::Secp);
+        c12_same_identity_texts::<ToyK>(ctx, Scheme::Toy);
+        if cfg!(feature = "ed") {
+            c12_same_identity_texts::<EdK>(ctx, Scheme::Ed);
+            c12_same_identity_texts::<CombK>(ctx, Scheme::Secp);
+        }
+    }
     let pools = crate::props::Pools::new();
     let nb = 24 + ctx.vol(if q { 40 } else { 2500 });
     for b in 0..nb {
@@ -843,7 +893,28 @@ fn ports_kind<KK: KeyKind>(ctx: &mut Ctx, scheme: Scheme, ports: &[u16]) {
     let mut setter_enr: Vec<Enr<KK::K>> = (0..4).map(|_| apply_build::<KK::K>(&[], &key).expect("minimal build")).collect();
     let mut sock_enr = apply_build::<KK::K>(&[], &key).expect("minimal build");
     let mut prev: [Option<u16>; 4] = [None; 4];
+    let mut shared = Enr::<KK::K>::builder();
     for &p in ports {
+        if p % 16 == 5 {
+            // the same builder, written again and again: the LAST value written is the one built
+            let r = guard(|| {
+                shared.tcp4(p.wrapping_add(1)).tcp4(p).udp6(p).client_info("a".into(), "1".into(), None).client_info("b".into(), p.to_string(), None);
+                shared.build(&key).map(|e| light(&e))
+            });
+            ctx.count("evaluations");
+            ctx.count("ports.reused-builder");
+            let replay = || json!({"kind": "port", "kt": KK::KT.name(), "scheme": scheme.name(), "which": "reused-builder", "port": p});
+            match r {
+                Ok(Ok(o)) => {
+                    if o.typed.tcp4 != Some(p) || o.typed.udp6 != Some(p) || o.typed.client != Some(("b".into(), p.to_string(), None)) {
+                        ctx.violate("C14", "typed-setter-stores-or-reads-other-value", &format!("reused-builder/{ktn}"), || format!("port {p}: tcp4 {:?} udp6 {:?} client {:?}", o.typed.tcp4, o.typed.udp6, o.typed.client), replay);
+                    }
+                    check_typed(ctx, &o, &format!("reused-builder/{ktn}"), &replay);
+                }
+                Ok(Err(e)) => ctx.violate("C14", "typed-builder-refused", &format!("reused/{ktn}"), || format!("port {p}: {e:?}"), replay),
+                Err(pm) => ctx.violate("C03", "panic", &format!("builder/{}", panic_sig(&pm)), || pm.clone(), replay),
+            }
+        }
         if ctx.expired() {
             ctx.count("deadline-stops");
             return;
@@ -1132,9 +1203,36 @@ fn pool_check<KK: KeyKind>(ctx: &mut Ctx, states: &[Obs], scheme: Scheme, other_
         if guard(|| e7.insert(b"a", &(i as u64 + 7), signer).is_ok() && e7.set_seq(o.seq, signer).is_ok()).unwrap_or(false) {
             pool.push(mk(e7, i, "value-edited-same-seq"));
         }
+        // two records that differ only in WHERE a key ends and its value begins (same concatenated bytes)
+        if i % 4 == 0 {
+            let mut e8 = e.clone();
+            let mut e9 = e.clone();
+            if guard(|| e8.insert(b"foo", &&b"bar"[..], signer).is_ok() && e8.set_seq(o.seq, signer).is_ok()).unwrap_or(false)
+                && guard(|| e9.insert(b"foo\x83ba", &&b"r"[..], signer).is_ok() && e9.set_seq(o.seq, signer).is_ok()).unwrap_or(false)
+            {
+                pool.push(mk(e8, i, "boundary-shift-a"));
+                pool.push(mk(e9, i, "boundary-shift-b"));
+            }
+        }
         pool.push(mk(e, i, "decoded"));
         if pool.len() > 260 {
             break;
+        }
+    }
+    // Clone::clone_from between different records: the slot becomes the source in every respect
+    for i in 0..pool.len().min(40) {
+        let j = (i * 7 + 3) % pool.len();
+        let r = guard(|| {
+            let mut slot = pool[j].e.clone();
+            slot.clone_from(&pool[i].e);
+            (slot == pool[i].e, fixed_hash(&slot) == fixed_hash(&pool[i].e), slot.node_id() == pool[i].e.node_id(), alloy_rlp::encode(&slot) == pool[i].enc)
+        });
+        ctx.count("evaluations");
+        ctx.count("c15.clone_from");
+        match r {
+            Ok((true, true, true, true)) => {}
+            Ok(other) => ctx.violate("C15", "clone_from-result-differs-from-source", &format!("{}-into-{}", pool[i].tag, pool[j].tag), || format!("(==, same hash, same node id, same encoding) = {other:?}"), replay),
+            Err(p) => ctx.violate("C03", "panic", &format!("clone_from/{}", panic_sig(&p)), || p.clone(), replay),
         }
     }
     let n = pool.len();
